@@ -2,7 +2,7 @@
    do on generated inputs, compared with Model/FromRaw.v, Model/Import.v and
    Model/Json.v (the latter instantiated with the dicttls tables of Gen/Dict.v). *)
 From Coq Require Export String Uint63.
-From UV Require Export Base.Common Model.Wire Model.Varint Model.Ext Model.FromRaw Model.Import Model.Json.
+From UV Require Export Base.Common Model.Wire Model.Varint Model.Ext Model.FromRaw Model.Import Model.Json Model.SetVers.
 From UV Require Import Model.Padding Model.Dicttls Gen.Dict.
 Open Scope N_scope.
 Open Scope list_scope.
@@ -30,7 +30,13 @@ Inductive sobs :=
 | SErr
 | SPanic.
 
+(* what UConn.SetTLSVers did: Hello.SupportedVersions as (length, first four entries, last entry;
+   the list has up to 65535 entries when min > max) | an error | it panicked *)
+Inductive vobs := VOk (len : N) (head : list N) (lst : N) | VErr | VPanic.
+
 Inductive case :=
+(* UClient(HelloCustom).SetTLSVers(minV, maxV, exts) *)
+| CSetVers (minV maxV : N) (exts : list ext) (o : vobs)
 (* Fingerprinter{blunt, always, real}.FingerprintClientHello(raw) *)
 | CRaw (blunt always real : bool) (raw : bytes) (o : sobs)
 (* (&ClientHelloSpec{TLSVersMin: vmin, TLSVersMax: vmax}).ImportTLSClientHello(m) *)
@@ -88,6 +94,14 @@ Definition json_fp (always : bool) (v : jval) : res spec :=
 
 Definition check (c : case) : bool :=
   match c with
+  | CSetVers minV maxV es o =>
+      match set_tls_vers minV maxV es, o with
+      | Ok (_, _, sv), VOk len hd lst =>
+          (N.of_nat (length sv) =? len) && list_eqb N.eqb (firstn 4 sv) hd && (last sv 0 =? lst)
+      | Err _, VErr => true
+      | Panic _, VPanic => true
+      | _, _ => false
+      end
   | CRaw blunt always real raw o =>
       matches (fingerprint {| f_blunt := blunt; f_always_pad := always; f_real_psk := real |} raw) o
   | CImport vmin vmax m o => matches (import_hello true vmin vmax m) o
